@@ -221,10 +221,14 @@ pub fn trigger(name: &str, args: &Value, cfg: &Cfg, history: &[Op], finding: &Va
             let ratio = x["ratio"].as_f64().unwrap_or(1.0);
             let fc = x["f_cutoff"].as_f64().unwrap_or(1.0);
             let excess = x["excess_dB"].as_f64().unwrap_or(f64::INFINITY);
-            if !(x["family"] == "sinc" && x["window"] == "BlackmanHarris2" && len >= 8) {
+            let wname = x["window"].as_str().unwrap_or("");
+            let Some(w) = crate::cfg::WINDOWS.iter().copied().find(|w| crate::cfg::window_name(*w) == wname) else {
+                return false;
+            };
+            if !(x["family"] == "sinc" && len >= 8) {
                 return false;
             }
-            let ccv = rubato::calculate_cutoff::<f32>(len, rubato::WindowFunction::BlackmanHarris2) as f64;
+            let ccv = rubato::calculate_cutoff::<f32>(len, w) as f64;
             fc * ratio.min(1.0) < argf(args, "lobes", 0.1) * (1.0 - ccv) && excess <= argf(args, "max_excess_dB", 6.0)
         }
         // the last processing call runs a ramp
